@@ -342,6 +342,12 @@ func (m *collection) mergerNotifyPersister() {
 			prevLowerLevelSnapshot.decRef()
 		}
 
+		// The child stacks need the latest lower level as well.
+		if m.stackDirtyBase.lowerLevelSnapshot != nil {
+			m.refreshChildLLSnapshots(m.stackDirtyBase,
+				m.stackDirtyBase.lowerLevelSnapshot.ss)
+		}
+
 		if m.waitDirtyOutgoingCh != nil {
 			close(m.waitDirtyOutgoingCh)
 		}
